@@ -1,5 +1,5 @@
 namespace CGen
-/-! Port of xobjects/capi.py text generation (pinned tree, incl. the `offset=` form for arrays of dynamic items). -/
+/-! Port of xobjects/capi.py text generation, through the statement IR `Stmt` whose semantics is in Xo/Model/CSem.lean. -/
 
 inductive Scalar | f64 | f32 | i64 | u64 | i32 | u32 | i16 | u16 | i8 | u8
 deriving Repr, DecidableEq, Inhabited
@@ -171,24 +171,38 @@ def indexOffsetCode (arr : Ty) (icount : Nat) : List String :=
     let soffset0 := "+".intercalate terms
     let soffset := if ai.dataOffset > 0 then s!"{ai.dataOffset}+{soffset0}" else soffset0
     if ai.staticType then pre ++ [s!"  offset+={soffset};"]
-    else pre ++ [s!"  offset={intFromObj s!"offset+{soffset}"};"]
+    else pre ++ [s!"  offset+={intFromObj s!"offset+{soffset}"};"]
   | _ => []
 
+/-- the statement language of `gen_method_offset`: everything the generated accessors do to `offset` -/
+inductive Stmt where
+ | addConst (k : Nat)            -- `offset+=k;`
+ | addLoadAt (k : Nat)           -- `offset+=*(int64_t*)((char*) obj+offset+k);`   (reference field of a struct)
+ | deref                         -- `offset+=*(int64_t*)((char*) obj+offset);`     (Ref / UnionRef slot)
+ | index (arr : Ty) (icount : Nat)   -- stride loads (N-D dynamic shape) and the index step of `Index_get_c_offset`
+deriving Repr, Inhabited
+
+def Stmt.print : Stmt → List String
+ | .addConst k => [s!"  offset+={k};"]
+ | .addLoadAt k => [s!"  offset+={intFromObj s!"offset+{k}"};"]
+ | .deref => [s!"  offset+={intFromObj "offset"};"]
+ | .index arr ic => indexOffsetCode arr ic
+
+def dump (acc : Nat) : List Stmt := if acc > 0 then [.addConst acc] else []
+
+/-- `gen_method_offset`: the static accumulator `acc` is dumped before every dynamic step -/
+def genStmts : List Part → (acc icount : Nat) → List Stmt
+ | [], acc, _ => dump acc
+ | .index arr :: r, acc, ic =>
+    let nd := match arr with | .array _ sh _ => sh.length | _ => 0
+    dump acc ++ .index arr ic :: genStmts r 0 (ic + nd)
+ | .field _ o true :: r, acc, ic => dump acc ++ .addLoadAt o :: genStmts r 0 ic
+ | .field _ o false :: r, acc, ic => genStmts r (acc + o) ic
+ | .ty (.ref _) :: r, acc, ic => dump acc ++ .deref :: genStmts r 0 ic
+ | .ty _ :: r, acc, ic => genStmts r acc ic
+
 def methodOffset (path : List Part) : String :=
-  let rec go (ps : List Part) (acc icount : Nat) (out : List String) : List String :=
-    match ps with
-    | [] => if acc > 0 then out ++ [s!"  offset+={acc};"] else out
-    | .index arr :: r =>
-      let code := indexOffsetCode arr icount
-      let nd := match arr with | .array _ sh _ => sh.length | _ => 0
-      go r 0 (icount + nd) (out ++ (if acc > 0 then [s!"  offset+={acc};"] else []) ++ code)
-    | .field _ o true :: r =>
-      go r 0 icount (out ++ (if acc > 0 then [s!"  offset+={acc};"] else []) ++ [s!"  offset+={intFromObj s!"offset+{o}"};"])
-    | .field _ o false :: r => go r (acc + o) icount out
-    | .ty (.ref _) :: r =>
-      go r 0 icount (out ++ (if acc > 0 then [s!"  offset+={acc};"] else []) ++ [s!"  offset+={intFromObj "offset"};"])
-    | .ty _ :: r => go r acc icount out
-  "\n".intercalate (go path 0 0 ["  int64_t offset=0;"])
+  "\n".intercalate ("  int64_t offset=0;" :: (genStmts path 0 0).flatMap Stmt.print)
 
 structure Arg where
   cty : String          -- atype._c_type
@@ -241,46 +255,83 @@ def decl (cls : Ty) (path : List Part) (action : String) (addN const : Bool) (ex
 
 def lastTy (path : List Part) : Option Ty := match path.getLast? with | some (.ty t) => some t | _ => none
 
-def methodsFromPath (cls : Ty) (path : List Part) : List String :=
+inductive Kind | get | set | getp | len | typeid | member
+deriving Repr, DecidableEq, Inhabited
+
+/-- one generated accessor: the class it belongs to, the access path and what it does at the end of the path -/
+structure CFun where
+  cls : Ty
+  path : List Part
+  kind : Kind
+deriving Inhabited
+
+/-- which accessors `methods_from_path` emits for a path, in its order -/
+def funsFromPath (cls : Ty) (path : List Part) : List CFun :=
   match lastTy path with
   | none => []
   | some lt =>
+    (if lt.isScalar then [⟨cls, path, .get⟩, ⟨cls, path, .set⟩] else []) ++
+    (if lt.isCompound || lt.isScalar || lt.isString then [⟨cls, path, .getp⟩] else []) ++
+    (if lt.isArray then [⟨cls, path, .len⟩] else []) ++
+    (if lt.isUnion then [⟨cls, path, .typeid⟩, ⟨cls, path, .member⟩] else [])
+
+/-- the constant / `arr[k]` factors of `gen_method_len`: a static dimension is a constant, the j-th dynamic one reads header word `1 + j` -/
+def lenTerms : List (Option Nat) → Nat → List (Sum Nat Nat)
+ | [], _ => []
+ | some dd :: r, k => .inl dd :: lenTerms r k
+ | none :: r, k => .inr k :: lenTerms r (k + 1)
+
+def CFun.print (f : CFun) : String :=
+  let cls := f.cls
+  let path := f.path
+  match lastTy path with
+  | none => ""
+  | some lt =>
     let off := methodOffset path
-    let getset :=
-      if lt.isScalar then
-        let r := argOf lt
-        [ "\n".intercalate [decl cls path "get" false true [] (some r) ++ "{", off, s!"  return {cPointed r};", "}"],
-          "\n".intercalate [decl cls path "set" false false [{ r with name := "value" }] none ++ "{", off, s!"  {cPointed { r with name := "value" }}=value;", "}"] ]
-      else []
-    let getp :=
-      if lt.isCompound || lt.isScalar || lt.isString then
-        let r := if lt.isScalar then { argOf lt with pointer := true } else argOf lt
-        [ "\n".intercalate [decl cls path "getp" true false [] (some r) ++ "{", off, s!"  return {cPointed r};", "}"] ]
-      else []
-    let len :=
+    match f.kind with
+    | .get =>
+      let r := argOf lt
+      "\n".intercalate [decl cls path "get" false true [] (some r) ++ "{", off, s!"  return {cPointed r};", "}"]
+    | .set =>
+      let r := argOf lt
+      "\n".intercalate [decl cls path "set" false false [{ r with name := "value" }] none ++ "{", off, s!"  {cPointed { r with name := "value" }}=value;", "}"]
+    | .getp =>
+      let r := if lt.isScalar then { argOf lt with pointer := true } else argOf lt
+      "\n".intercalate [decl cls path "getp" true false [] (some r) ++ "{", off, s!"  return {cPointed r};", "}"]
+    | .len =>
       match lt with
       | .array it shape order =>
         let ai := arrInfo it shape order
         let d := decl cls path "len" true false [] (some int64Arg) ++ "{"
         if ai.staticShape then
-          [ "\n".intercalate [d, s!"  return {(shape.map (·.getD 0)).foldl (· * ·) 1};", "}"] ]
+          "\n".intercalate [d, s!"  return {(shape.map (·.getD 0)).foldl (· * ·) 1};", "}"]
         else
-          let rec terms (sh : List (Option Nat)) (k : Nat) : List String :=
-            match sh with
-            | [] => []
-            | some 0 :: r => s!"arr[{k}]" :: terms r (k + 1)
-            | some dd :: r => toString dd :: terms r k
-            | none :: r => s!"arr[{k}]" :: terms r (k + 1)
+          let terms := (lenTerms shape 1).map fun | .inl dd => toString dd | .inr k => s!"arr[{k}]"
           let arrp := cPointed { int64Arg with pointer := true }
-          [ "\n".intercalate [d, off, s!"  {intP} arr = {arrp};", s!"  return {"*".intercalate (terms shape 1)};", "}"] ]
-      | _ => []
-    let uni :=
-      if lt.isUnion then
-        [ "\n".intercalate [decl cls path "typeid" false true [] (some int64Arg) ++ "{", off, "  offset+=8;", s!"  return {cPointed int64Arg};", "}"],
-          "\n".intercalate [decl cls path "member" false true [] (some { voidArg with pointer := true }) ++ "{", off,
-            s!"  offset+={intFromObj "offset"};", s!" return {cPointed { voidArg with pointer := true }};", "}"] ]
-      else []
-    getset ++ getp ++ len ++ uni
+          "\n".intercalate [d, off, s!"  {intP} arr = {arrp};", s!"  return {"*".intercalate terms};", "}"]
+      | _ => ""
+    | .typeid =>
+      "\n".intercalate [decl cls path "typeid" false true [] (some int64Arg) ++ "{", off, "  offset+=8;", s!"  return {cPointed int64Arg};", "}"]
+    | .member =>
+      "\n".intercalate [decl cls path "member" false true [] (some { voidArg with pointer := true }) ++ "{", off,
+            s!"  offset+={intFromObj "offset"};", s!" return {cPointed { voidArg with pointer := true }};", "}"]
+
+def methodsFromPath (cls : Ty) (path : List Part) : List String :=
+  (funsFromPath cls path).map CFun.print
+
+def allFuns (cls : Ty) : List CFun :=
+  match cls with
+  | .ref _ => []
+  | _ => (dataPaths cls []).flatMap (funsFromPath cls)
+
+def CFun.name (f : CFun) : String :=
+  match f.kind with
+  | .get => (funName f.cls f.path "get" false).1
+  | .set => (funName f.cls f.path "set" false).1
+  | .getp => (funName f.cls f.path "getp" true).1
+  | .len => (funName f.cls f.path "len" true).1
+  | .typeid => (funName f.cls f.path "typeid" false).1
+  | .member => (funName f.cls f.path "member" false).1
 
 def genCode (cls : Ty) : String :=
   let tn := cls.name
